@@ -59,8 +59,8 @@ def b_probe(ctx):
 HARNESSES["b_probe"] = b_probe
 
 
-def file_options(dest, user=b"root", group=b"root", mode=0o100644, flags=0, verify=0xffffffff, link=b""):
-    return Adt("FileOptions", "FileOptions", [string(dest), string(user), string(group), string(link), Adt("FileMode", "Regular", [Int(mode & 0o7777, "u16")]),
+def file_options(dest, user=b"root", group=b"root", mode=0o100644, flags=0, verify=0xffffffff, link=b"", ftype="Regular"):
+    return Adt("FileOptions", "FileOptions", [string(dest), string(user), string(group), string(link), Adt("FileMode", ftype, [Int(mode & 0o7777, "u16")]),
                                               Adt("FileFlags", "bits", [Int(flags, "u32")]), Bool_(False), Adt("Option", "None"), Adt("FileVerifyFlags", "bits", [Int(verify, "u32")])])
 
 
@@ -631,10 +631,14 @@ def replay_c06(ctx, fl):
         return not ans.startswith("same"), "real crate: with_file over a source file chmod-ed to %o%s, then get_file_entries -> %s" % (
             fl.get("st_mode", 0) & 0o7777, (" with .mode(%o)" % (0o100000 | fl.get("perm", 0))) if fl.get("explicit") else "", ans[:100])
     if fl.get("kind") in ("c06s", "c06d", "c06f", "c06c", "c06m"):
-        which = {"c06s": "scriptlets_prog" if fl.get("with_prog") else "scriptlets_plain", "c06d": "deps", "c06f": "files", "c06c": "changelog", "c06m": "files_misc"}[fl["kind"]]
+        which = {"c06s": {1: "scriptlets_prog1", 3: "scriptlets_prog3"}.get(fl.get("nprog"), "scriptlets_prog") if fl.get("with_prog") else "scriptlets_plain", "c06d": "deps", "c06f": "files", "c06c": "changelog", "c06m": "files_misc"}[fl["kind"]]
         if fl["kind"] == "c06d" and len(fl.get("which") or []) == 1:
             which = "dep:" + fl["which"][0]
         ans = ctx.native.ask("readback2", which)
+        if which == "deps" and ans.startswith("same"):
+            # the two dependencies of a kind may carry the same name (a version range)
+            which = "deps_samename"
+            ans = ctx.native.ask("readback2", which)
         return not ans.startswith("same"), "real crate: %s set through the public API and read back -> %s" % (which, ans[:160])
     ans = ctx.native.ask("readback", fl["field"], fl.get("value") or "-")
     return not ans.startswith("same"), "real crate: builder .%s(%r) then the accessor -> %s" % (fl["field"], bytes.fromhex(fl.get("value") or ""), ans[:100])
@@ -659,10 +663,11 @@ def c06_scriptlets(ctx, which, with_prog):
     """each scriptlet setter in `which` gets a Scriptlet with symbolic text, symbolic flags and (optionally) a two-word interpreter"""
     ex = Exec(ctx.funcs, intrinsics.I, max_steps=4000000)
     ctx.stats = ex.stats
-    ctx.bounds = "scriptlet setters %s: script text of 2 symbolic characters, flags any u32, interpreter %s; build() and the scriptlet accessors from MIR" % (", ".join(which), "of two 1-character words" if with_prog else "absent")
+    nprog = 2 if with_prog is True else int(with_prog)
+    ctx.bounds = "scriptlet setters %s: script text of 2 symbolic characters, flags any u32, interpreter %s; build() and the scriptlet accessors from MIR" % (", ".join(which), "of %d 1-character word(s)" % nprog if with_prog else "absent")
 
     def setup(e):
-        return {sn: dict(text=sym_bytes(e, sn[:6] + "t", 2, 0x20, 0x7e), flags=z3.BitVec(sn + "_flags", 32), prog=[sym_bytes(e, sn[:6] + "p%d" % i, 1, 0x21, 0x7e) for i in range(2)]) for sn in which}
+        return {sn: dict(text=sym_bytes(e, sn[:6] + "t", 2, 0x20, 0x7e), flags=z3.BitVec(sn + "_flags", 32), prog=[sym_bytes(e, sn[:6] + "p%d" % i, 1, 0x21, 0x7e) for i in range(nprog)]) for sn in which}
 
     def body(e, inp):
         clock_stub(e)
@@ -679,7 +684,7 @@ def c06_scriptlets(ctx, which, with_prog):
     def on_path(e, inp, out):
         k, v = out
         if k != "return":
-            ctx.fail("building or reading back panics: %s" % (v,), "PackageBuilder::build", kind="c06s", which=list(which), with_prog=with_prog)
+            ctx.fail("building or reading back panics: %s" % (v,), "PackageBuilder::build", kind="c06s", which=list(which), with_prog=bool(with_prog), nprog=nprog)
             return
         r, got = v
         ctx.cover("package built", r.variant == "Ok")
@@ -694,14 +699,14 @@ def c06_scriptlets(ctx, which, with_prog):
                     bad = "returns another script text"
                 elif sc.fields[1].variant != "Some" or e._check(sc.fields[1].fields[0].fields[0].e != inp[sn]["flags"]):
                     bad = "returns other flags"
-                elif with_prog and (sc.fields[2].variant != "Some" or len(sc.fields[2].fields[0].items) != 2 or
+                elif with_prog and (sc.fields[2].variant != "Some" or len(sc.fields[2].fields[0].items) != nprog or
                                     any(e._check(z3.Not(_eq_str(e, x, Str(y)))) for x, y in zip(sc.fields[2].fields[0].items, inp[sn]["prog"]))):
                     bad = "returns another interpreter"
                 elif not with_prog and sc.fields[2].variant != "None":
                     bad = "returns an interpreter although none was given"
             if bad:
                 ctx.fail("%s() %s than the scriptlet given to %s()" % (SCRIPT_ACCESSORS[sn], bad, sn) if "another" in bad or "other" in bad else "%s() %s for the scriptlet given to %s()" % (SCRIPT_ACCESSORS[sn], bad, sn),
-                         "PackageMetadata::" + SCRIPT_ACCESSORS[sn], kind="c06s", which=list(which), with_prog=with_prog, setter=sn)
+                         "PackageMetadata::" + SCRIPT_ACCESSORS[sn], kind="c06s", which=list(which), with_prog=bool(with_prog), nprog=nprog, setter=sn)
                 return
     ex.run_all(setup, body, on_path)
 
@@ -821,6 +826,8 @@ def c06_files(ctx, nfiles):
 
 
 HARNESSES["c06_scriptlets_prog"] = lambda ctx: c06_scriptlets(ctx, SCRIPTLET_SETTERS, True)
+HARNESSES["c06_scriptlets_prog1"] = lambda ctx: c06_scriptlets(ctx, SCRIPTLET_SETTERS, 1)
+HARNESSES["c06_scriptlets_prog3"] = lambda ctx: c06_scriptlets(ctx, SCRIPTLET_SETTERS[:2], 3)
 HARNESSES["c06_scriptlets_plain"] = lambda ctx: c06_scriptlets(ctx, SCRIPTLET_SETTERS, False)
 HARNESSES["c06_deps_all"] = lambda ctx: c06_deps(ctx, DEP_SETTERS, 2)
 for _k in DEP_SETTERS:
@@ -1246,11 +1253,39 @@ HARNESSES["c06_fileopts_flags"] = c06_fileopts_flags
 # ---------------------------------------------------------------------------------------------------------
 # C08 (builder part): every digest the builder records is the digest of the bytes it names (digests as uninterpreted functions)
 # ---------------------------------------------------------------------------------------------------------
-def c08_build(ctx, sizes, comp="none"):
+def cpio_bodies(e, archive):
+    """[(name bytes, body terms)] of a newc archive whose entry headers and names are concrete (contents may be symbolic)"""
+    def conc(x):
+        x = z3.simplify(x) if z3.is_expr(x) else x
+        if isinstance(x, int):
+            return x
+        if z3.is_bv_value(x):
+            return x.as_long()
+        raise Unsupported("harness: symbolic byte in a cpio entry header")
+    out, pos = [], 0
+    while pos + 110 <= len(archive):
+        hd = bytes(conc(x) for x in archive[pos:pos + 110])
+        if hd[:6] not in (b"070701", b"070702"):
+            raise Unsupported("harness: archive entry without newc magic")
+        fsize, nsize = int(hd[54:62], 16), int(hd[94:102], 16)
+        name = bytes(conc(x) for x in archive[pos + 110:pos + 110 + nsize - 1])
+        pos += 110 + nsize
+        pos += (4 - pos % 4) % 4
+        if name == b"TRAILER!!!":
+            break
+        out.append((name, list(archive[pos:pos + fsize])))
+        pos += fsize
+        pos += (4 - pos % 4) % 4
+    return out
+
+
+def c08_build(ctx, sizes, comp="none", variant=""):
     ex = Exec(ctx.funcs, intrinsics.I, max_steps=8000000)
     ctx.stats = ex.stats
     ctx.bounds = ("PackageBuilder .. build() from MIR with files of %s symbolic content bytes, compression %s; SHA-256 as an uninterpreted function of the exact bytes hashed: header digest in the signature header, "
                   "payload digest, alternate payload digest, per-file digests" % ("/".join(map(str, sizes)) or "no", comp if comp == "none" else comp + " (level symbolic within the accepted range; the compressor is an uninterpreted function of level and input)"))
+    if variant:
+        ctx.bounds += {"dup": "; both files are added under the same destination /d/f0", "symlink": "; the last file is a symbolic-link entry (/d/l -> /t)"}[variant]
     from intrinsics2 import uf_digest
     from harnesses_pkg import hexchars
     from rpmvals import tag, sigtag
@@ -1264,7 +1299,9 @@ def c08_build(ctx, sizes, comp="none"):
         b = e.call_fn(ctx.impl_fn("compression", None, "PackageBuilder"), [b, compression_value(e, comp, zstd_documented_range=False)])
         cell = Cell(b)
         for i in range(len(sizes)):
-            r = e.call_fn(ctx.impl_fn("add_data", None, "PackageBuilder"), [Ref(cell), VecV([Int(x, "u8") for x in inp[i]]), Adt("Timestamp", "Timestamp", [Int(5, "u32")]), file_options(b"/d/f%d" % i)])
+            r = e.call_fn(ctx.impl_fn("add_data", None, "PackageBuilder"), [Ref(cell), VecV([Int(x, "u8") for x in inp[i]]), Adt("Timestamp", "Timestamp", [Int(5, "u32")]),
+                                                                                (file_options(b"/d/l", link=b"/t", ftype="SymbolicLink", mode=0o777) if variant == "symlink" and i == len(sizes) - 1 else
+                                                                                 file_options(b"/d/f0" if variant == "dup" else b"/d/f%d" % i))])
             assert r.variant == "Ok"
         r = e.call_fn(ctx.impl_fn("build", None, "PackageBuilder"), [cell.v])
         if r.variant != "Ok":
@@ -1278,7 +1315,7 @@ def c08_build(ctx, sizes, comp="none"):
     def on_path(e, inp, out):
         k, v = out
         if k != "return":
-            ctx.fail("building panics: %s" % (v,), "PackageBuilder::build", kind="c08b", sizes=list(sizes))
+            ctx.fail("building panics: %s" % (v,), "PackageBuilder::build", kind="c08b", sizes=list(sizes), comp=comp, variant=variant)
             return
         r, hb = v
         ctx.cover("package built", r.variant == "Ok")
@@ -1314,25 +1351,33 @@ def c08_build(ctx, sizes, comp="none"):
         checks.append(("payload digest algorithm id (SHA-256 = 8)", d is not None and not e._check(d.fields[0].items[0].e != 8)))
         if sizes:
             d = hdr.get(tag("RPMTAG_FILEDIGESTS"))
-            okf = d is not None and len(d.fields[0].items) == len(sizes) and all(not e._check(z3.Not(_eq_str(e, x, hexof(inp[i])))) for i, x in enumerate(d.fields[0].items))
+            if variant:
+                # files in the header and entries in the archive are both in path order: each recorded digest names the bytes the archive carries for that file
+                bodies = cpio_bodies(e, archive)
+                okf = d is not None and len(d.fields[0].items) == len(bodies) and all(not e._check(z3.Not(_eq_str(e, x, hexof(bodies[i][1])))) for i, x in enumerate(d.fields[0].items))
+                ctx.cover("archive entries compared", len(bodies) > 0)
+            else:
+                okf = d is not None and len(d.fields[0].items) == len(sizes) and all(not e._check(z3.Not(_eq_str(e, x, hexof(inp[i])))) for i, x in enumerate(d.fields[0].items))
             checks.append(("per-file digests", okf))
             d = hdr.get(tag("RPMTAG_FILEDIGESTALGO"))
             checks.append(("file digest algorithm id", d is not None and not e._check(d.fields[0].items[0].e != 8)))
         for what, good in checks:
             if not good:
-                ctx.fail("the built package records a wrong %s" % what, "PackageBuilder::build", kind="c08b", sizes=list(sizes), what=what, comp=comp)
+                ctx.fail("the built package records a wrong %s" % what, "PackageBuilder::build", kind="c08b", sizes=list(sizes), what=what, comp=comp, variant=variant)
                 return
     ex.run_all(setup, body, on_path)
 
 
 def replay_c08b(ctx, fl):
-    ans = ctx.native.ask("build_digests", ",".join(str(x) for x in fl.get("sizes", [])) or "-", fl.get("comp") or "none")
+    ans = ctx.native.ask("build_digests", ",".join(str(x) for x in fl.get("sizes", [])) or "-", fl.get("comp") or "none", fl.get("variant") or "plain")
     return not ans.startswith("same"), "real crate: package with files of those sizes built through the public API, recorded digests vs recomputed ones -> " + ans[:120]
 
 
 REPLAYERS["c08"] = (lambda prev: (lambda ctx, fl: replay_c08b(ctx, fl) if fl.get("kind") == "c08b" else prev(ctx, fl)))(REPLAYERS["c08"])
 for _sz in ((), (1,), (0, 3), (2, 1, 4)):
     HARNESSES["c08_build_" + ("_".join(map(str, _sz)) or "empty")] = (lambda sz: (lambda ctx: c08_build(ctx, sz)))(_sz)
+HARNESSES["c08_build_dup_2_3"] = lambda ctx: c08_build(ctx, (2, 3), variant="dup")
+HARNESSES["c08_build_symlink_2_1"] = lambda ctx: c08_build(ctx, (2, 1), variant="symlink")
 for _cp in ("gzip", "xz", "bzip2", "zstd"):
     HARNESSES["c08_build_%s_2_1" % _cp] = (lambda cp: (lambda ctx: c08_build(ctx, (2, 1), cp)))(_cp)
 
